@@ -30,8 +30,8 @@ def run(prop, tier, seed, wd, t0):
         jobs.append(macroh.select_job('loop.budget2', (3, 7), passes=2, tags=tags, timeout=1500))
         jobs.append(macroh.select_job('loop.budget2_same_priority', (5, 5), passes=2, tags=tags, timeout=1500))
         jobs.append(macroh.select_job('loop.budget2_adversarial', (5, 5), passes=2, adversarial=True, tags=tags, timeout=1500))
-        jobs.append(macroh.select_job('loop.budget3_1def', (5,), passes=3, nin=2, nbody=2, tags=tags, timeout=1700))
-        jobs.append(macroh.select_job('loop.budget3_adversarial_1def', (5,), passes=3, nin=2, nbody=2, adversarial=True, tags=tags, timeout=1700))
+        jobs.append(macroh.select_job('loop.budget3_1def', (5,), passes=3, nin=2, nbody=1, tags=tags, timeout=1700))
+        jobs.append(macroh.select_job('loop.budget3_adversarial_1def', (5,), passes=3, nin=2, nbody=1, adversarial=True, tags=tags, timeout=1700))
 
     def extra(out):
         try:
